@@ -63,6 +63,19 @@ func hasRealUse(v ssa.Value, seen map[ssa.Value]bool) bool {
 			if hasRealUse(x, seen) {
 				return true
 			}
+		case *ssa.BinOp:
+			// a comparison whose own result goes nowhere (`_ = err != nil`) examines nothing
+			if hasRealUse(x, seen) {
+				return true
+			}
+		case *ssa.MakeInterface:
+			if hasRealUse(x, seen) {
+				return true
+			}
+		case *ssa.ChangeInterface:
+			if hasRealUse(x, seen) {
+				return true
+			}
 		default:
 			return true
 		}
@@ -316,6 +329,105 @@ func (c *Check) writeFailureMustFail(rule string, floor int) {
 		c.Held(rule, "write-failure-fails", "", fmt.Sprintf("%d tested state-write calls: no `err != nil` branch reaches a success exit", n))
 	}
 	c.Floor(rule, "tested state-write calls", n, floor)
+}
+
+// readFailureForgivenOnlyIfNotFound: for every store READ (Get, Peek, Has, Iterate, Walk …) whose error is tested, the
+// `err != nil` branch may flow on to a success exit only over an edge on which `errors.Is(err, …)` came out true (the
+// "not found means empty" idiom): any other failure of the store must fail the caller instead of being taken for an
+// empty entry.
+func (c *Check) readFailureForgivenOnlyIfNotFound(rule string) {
+	p := c.p
+	n, bad := 0, 0
+	for _, f := range p.ProdFuncs {
+		if p.isGenerated(f) || len(f.Blocks) == 0 {
+			continue
+		}
+		res := f.Signature.Results()
+		if res.Len() == 0 || !types.Identical(res.At(res.Len()-1).Type(), errorType) {
+			continue
+		}
+		var exits []Exit
+		r := p.R(f)
+		for _, s := range p.StoreSites(f) {
+			if writeMethods[s.Method] {
+				continue
+			}
+			call, ok := s.Call.(*ssa.Call)
+			if !ok {
+				continue
+			}
+			ev := errValueOf(call)
+			if ev == nil {
+				continue
+			}
+			avoid := map[edgeKey]bool{}
+			tested := false
+			for _, b := range f.Blocks {
+				iff, ok := b.Instrs[len(b.Instrs)-1].(*ssa.If)
+				if !ok {
+					continue
+				}
+				bo, ok := iff.Cond.(*ssa.BinOp)
+				if !ok {
+					continue
+				}
+				var other ssa.Value
+				if isNilConst(bo.Y) {
+					other = bo.X
+				} else if isNilConst(bo.X) {
+					other = bo.Y
+				} else {
+					continue
+				}
+				if !flowsInto(ev, other, map[ssa.Value]bool{}) {
+					continue
+				}
+				tested = true
+				nilIdx := 0
+				if bo.Op.String() == "!=" {
+					nilIdx = 1
+				}
+				avoid[edgeKey{b: b, i: nilIdx}] = true
+			}
+			if !tested {
+				continue
+			}
+			// the forgiving edges: errors.Is(err, X) true
+			isRe := regexp.MustCompile(`^errors\.Is\(` + regexp.QuoteMeta(r.E(ev)) + `, `)
+			for _, ef := range p.EdgeFacts(f) {
+				if ef.Pred == nil && isRe.MatchString(ef.Fact) {
+					avoid[ef.Key()] = true
+				}
+			}
+			if exits == nil {
+				exits = Exits(f)
+			}
+			c.touch(f)
+			n++
+			targets := map[ssa.Instruction]bool{}
+			for _, e := range exits {
+				if e.Kind == exitFailure {
+					continue
+				}
+				op := e.Ret.Results[len(e.Ret.Results)-1]
+				if sv := spilledValue(op, e.Ret); sv != nil {
+					op = sv
+				}
+				if e.Kind == exitMaybe && flowsInto(ev, op, map[ssa.Value]bool{}) {
+					continue
+				}
+				targets[e.Ret] = true
+			}
+			ps := &PathSearch{Fn: f, AvoidEdges: avoid, From: call, IsTarget: func(i ssa.Instruction) bool { return targets[i] }}
+			if t, path := ps.Find(); t != nil {
+				bad++
+				c.Violated(rule, "read-failure-swallowed "+p.CallStr(call)+" @ "+FuncKey(f), p.InstrPos(call), "a success exit is reachable on the branch where this store read failed, without the failure having been recognised as `not found`", p.describePath(path)...)
+			}
+		}
+	}
+	if bad == 0 {
+		c.Held(rule, "read-failure-fails", "", fmt.Sprintf("%d tested store reads: an `err != nil` branch reaches a success exit only over an errors.Is(err, …) edge", n))
+	}
 }
 
 // ---- lost updates: two read-modify-write sequences on one map whose keys may coincide ----
